@@ -183,7 +183,13 @@ class C03(Prop):
             "size 2/3 through the chunk hooks, plus key/password files at the production chunk size; header sweep "
             "(implementation + direct oracle, not sent to the model): on small key-mode and password-mode files EVERY "
             "single-bit flip of every header byte (1056 / 288 bits), every proper prefix, extensions, sampled "
-            "(thorough: all) bit flips of the chunk section; a case is "
+            "(thorough: all) bit flips of the chunk section; files of >= 4 chunks of EQUAL length (full chunks, and short "
+            "ones from a source that hands out equal pieces; chunk hooks, key mode and password mode, also 3*65536+r bytes at "
+            "the production chunk size): every bit of every chunk's 16-byte header flipped and the flag field of the middle "
+            "chunks rewritten (password mode / production size: all flag bits, sampled length and counter bits); command "
+            "line: `kestrel decrypt` / `kestrel password decrypt` on small files made by the library and by the program with "
+            "one bit flipped (every bit of the first 36 bytes, the magic through file argument AND stdin, one bit of every "
+            "other header byte, sampled chunk bits; thorough: every bit both ways), must exit 1 and release nothing; a case is "
             "non-trivial when it is not the unmodified authentic file; distinct = distinct driver command lines")
     assumptions = ["no-forgery-in-run premise (INT-CTXT of ChaCha20-Poly1305 idealised, DESIGN section 4)",
                    "AEAD correctness laws aead_ok are proved for the Gallina RFC 8439 instance"]
@@ -432,6 +438,307 @@ class C03(Prop):
     def explore(self, ctx):
         super().explore(ctx)
         self.run_direct_par(ctx, self.header_sweep(ctx, ctx.thorough()))
+        # every header-field bit of EVERY chunk of files with >= 4 chunks of equal length (a chunk that is neither the
+        # first nor the last and announces the length of its predecessor), chunk hooks + both file modes
+        em, ed = c03_equal_chunk_stream(self, ctx, ctx.thorough())
+        self.run_cases(ctx, em, model=True)
+        self.run_direct_par(ctx, ed + c03_equal_chunk_files(self, ctx, ctx.thorough()))
+        # the same statement at the command line: `kestrel decrypt` / `kestrel password decrypt` on damaged files
+        if os.path.exists(vlib.CLIDRV):
+            c03_cli_tamper(self, ctx)
+        else:
+            ctx.broken.append({"kind": "correspondence", "what": "clidrv was not built: command-line half of C03 not checked"})
+
+    def replay(self, ctx, payload):
+        if payload.get("input", {}).get("kind") == "proc":
+            import props_cli
+            return props_cli.k_replay(ctx, payload)
+        return super().replay(ctx, payload)
+
+
+# ---- C03: per-chunk header fields of every chunk of many-chunk files
+def c03_header_bits(F, off=0):
+    """[(chunk index, bit offset in F, field)] for every bit of every 16-byte chunk header of the chunk section F[off:]"""
+    out = []
+    pos = off
+    for ci, rec in enumerate(records(F, off)):
+        for b in range(128):
+            out.append((ci, pos * 8 + b, "counter" if b < 64 else ("flag" if b < 96 else "length")))
+        pos += len(rec)
+    return out
+
+
+def c03_equal_chunk_stream(self, ctx, full):
+    """chunk hooks, tiny chunk sizes: files of 4 full chunks (the last one full and final), of 4 full chunks + a short
+    final one, and of 4 equal chunks SHORTER than the chunk size (short reads) + final; every bit of every chunk header
+    flipped.  Returns (cases for the model: flag and length fields of every chunk of one file per chunk size,
+    cases for the direct oracle only: everything else)."""
+    rng = ctx.rng
+    model, direct = [], []
+    for cs in ([2, 3, 5] if full else [rng.choice([2, 3])]):
+        key = ctx.rbytes(32)
+        pick = (rng.randrange(2), rng.randrange(2))     # quick: the file whose flag flips the model sees too (4 / 5 chunks)
+        for ai, aad in enumerate([b"", b"egk\x20"]):
+            k = rng.randrange(4, 7) if (full or ai != pick[0]) else 4
+            pts = [ctx.rbytes(k * cs), ctx.rbytes(k * cs + rng.randrange(1, cs)), ctx.rbytes(4 * (cs - 1) + 1), ctx.rbytes(5)]
+            rsl = ["-", "-", ",".join(["c%d" % (cs - 1)] * 4), "c1,c1,c1,c1,c1"]
+            files, encs = authentic_chunks(ctx, key, aad, cs, pts, rsl)
+            for fi, (P, F, e) in enumerate(zip(pts, files, encs)):
+                if e.result["code"] != 0:
+                    direct.append(Case("enc_chunks", oracle=ok_only("honest chunk encryption succeeds"), tags=["eqchunk-enc"], **dict(e.a)))
+                    continue
+                mk = lambda data, kind, tags, P=P: Case("dec_chunks", key=key, aad=aad, cs=cs, data=data,
+                                                         oracle=self.expect(P, kind), tags=tags)
+                to_model = (ai, fi) == pick or full
+                (model if to_model else direct).append(mk(F, "must_accept", ["authentic", "trivial"]))
+                hb = c03_header_bits(F)
+                lsel = set(b for _, b, f_ in hb if f_ == "length") if full else \
+                    set(b for ci in range(len(records(F))) for b in rng.sample([b for c_, b, f_ in hb if c_ == ci and f_ == "length"], 4))
+                for ci, bit, field in hb:
+                    c = mk(flip(F, bit), "must_accept" if field == "counter" else "must_reject", ["eqchunk-" + field, "chunk=%d" % min(ci, 9)])
+                    (model if (to_model and (field == "flag" or bit in lsel)) else direct).append(c)
+                # the flag field REWRITTEN (not just one bit) in a middle chunk
+                recs = records(F)
+                for ci in range(1, len(recs) - 1):
+                    pos = sum(len(x) for x in recs[:ci])
+                    for v in (2, 3, 0x100, 0x80000001, rng.getrandbits(32) | 2):
+                        x = bytearray(F)
+                        x[pos + 8:pos + 12] = v.to_bytes(4, "big")
+                        (model if to_model else direct).append(mk(bytes(x), "must_reject", ["eqchunk-flag-value"]))
+    return model, direct
+
+
+def c03_equal_chunk_files(self, ctx, full):
+    """both file modes through the public API (direct oracle): small files whose chunks are equal and short because the
+    source handed the plaintext out in equal pieces, and files of 3*65536 + r bytes (three equal full chunks at the
+    production chunk size + final).  Key mode: every header bit of every chunk (small), every flag bit + sampled
+    length/counter bits of every chunk (production size).  Password mode (one scrypt per case): flag and length fields of
+    every chunk (small); sampled flag bits of every chunk (production size; thorough: all)."""
+    rng = ctx.rng
+    cases = []
+    (s_, spk), (r_, rpk), (e, epk) = keypairs(ctx, 3)
+    pw = rng.choice(PASSWORDS[1:])
+
+    def enc_key(P, rs):
+        return Case("key_enc", s=s_, spk=spk, r=rpk, e=e, epk=epk, pk=ctx.rbytes(32), data=P, rs=rs)
+
+    def enc_pass(P, rs):
+        return Case("pass_enc", pw=pw, salt=ctx.rbytes(32), data=P, rs=rs)
+    L = rng.randrange(1, 10)
+    L2 = rng.randrange(1, 10)
+    plan = [("key", "small", enc_key(ctx.rbytes(4 * L + rng.randrange(1, L + 1)), ",".join(["c%d" % L] * 4))),
+            ("key", "small", enc_key(ctx.rbytes(5 * L2), ",".join(["c%d" % L2] * 5))),
+            ("pass", "small", enc_pass(ctx.rbytes(4 * L + rng.randrange(0, L + 1)), ",".join(["c%d" % L] * 4))),
+            ("key", "big", enc_key(ctx.rbytes(3 * BIG + rng.randrange(1, 200)), "-")),
+            ("pass", "big", enc_pass(ctx.rbytes(3 * BIG + rng.randrange(1, 200)), "-"))]
+    if full:
+        plan.append(("key", "big", enc_key(ctx.rbytes(4 * BIG), "-")))
+        plan.append(("pass", "small", enc_pass(ctx.rbytes(5 * L2), ",".join(["c%d" % L2] * 5))))
+    vlib.run_impl(ctx.bin, [c for _, _, c in plan])
+    for mode, size, enc in plan:
+        if enc.result["code"] != 0:
+            cases.append(Case(enc.op, oracle=ok_only("honest encryption succeeds"), tags=["eqfile-enc"], **dict(enc.a)))
+            continue
+        P, F = enc.a["data"], enc.result["out"]
+        if mode == "key":
+            mk = lambda data, kind, tags, P=P: Case("key_dec", r=r_, rpk=rpk, data=data, oracle=self.expect(P, kind), tags=tags)
+            off = 132
+        else:
+            mk = lambda data, kind, tags, P=P, pw_=enc.a["pw"]: Case("pass_dec", pw=pw_, data=data, oracle=self.expect(P, kind), tags=tags)
+            off = 36
+        cases.append(mk(F, "must_accept", ["authentic", "trivial"]))
+        bits = c03_header_bits(F, off)
+        if not full:
+            if mode == "key" and size == "big":
+                bits = [b for b in bits if b[2] == "flag"] + rng.sample([b for b in bits if b[2] == "length"], 24) \
+                    + rng.sample([b for b in bits if b[2] == "counter"], 8)
+            elif mode == "pass" and size == "small":
+                bits = [b for b in bits if b[2] == "flag"] + rng.sample([b for b in bits if b[2] == "length"], 40) \
+                    + rng.sample([b for b in bits if b[2] == "counter"], 6)
+            elif mode == "pass" and size == "big":
+                fl = [b for b in bits if b[2] == "flag"]
+                # of every chunk: the lowest flag bit, the bit above it, and four others
+                bits = []
+                nchunks = max(b[0] for b in fl) + 1
+                for ci in range(nchunks):
+                    mine = [b for b in fl if b[0] == ci]
+                    bits += [mine[24], mine[25]] + rng.sample(mine, 4)   # byte 3 of the field holds bits 0..7 of the value
+        for ci, bit, field in bits:
+            cases.append(mk(flip(F, bit), "must_accept" if field == "counter" else "must_reject",
+                            ["eqfile-%s-%s-%s" % (mode, size, field), "chunk=%d" % min(ci, 9)]))
+        # flag field rewritten in the middle chunks
+        recs = records(F, off)
+        for ci in range(1, len(recs) - 1):
+            pos = off + sum(len(x) for x in recs[:ci])
+            for v in ([2, rng.getrandbits(32) | 2] if (mode == "pass" or size == "big") else [2, 3, 0x100, 0x80000001, rng.getrandbits(32) | 2]):
+                x = bytearray(F)
+                x[pos + 8:pos + 12] = v.to_bytes(4, "big")
+                cases.append(mk(bytes(x), "must_reject", ["eqfile-%s-%s-flag-value" % (mode, size)]))
+    return cases
+
+
+def c03_cli_tamper(self, ctx):
+    """C03 through the real program: small authentic key-mode and password-mode files (made by the library AND by
+    `kestrel encrypt` / `kestrel password encrypt` themselves), one bit changed, handed to `kestrel decrypt` /
+    `kestrel password decrypt` as a file argument or on standard input, output to -o FILE or to standard output.
+    Every change outside the 8-byte counter field: exit status 1 and not one byte released (no output file or an empty
+    one, nothing on stdout); a change inside the counter field and the unchanged file: exit 0 and exactly the plaintext.
+    quick: every bit of the first 36 bytes of both kinds of file (magic + ephemeral key / salt; the 32 magic bits through
+    BOTH entry points), one random bit of each of the other 96 key-mode header bytes, sampled bits of the chunk section;
+    thorough: every bit of the 132 / 36 header bytes through both entry points, every bit of the chunk section.  Also bytes
+    put before the magic or after the last record (newline, CR LF, NUL, blank, ^Z, BOM, random) and cuts (sampled lengths;
+    thorough: every length): all refused."""
+    import props_cli as pc
+    from concurrent.futures import ThreadPoolExecutor
+    rng = ctx.rng
+    full = ctx.thorough()
+    (a, A), (b, B) = keypairs(ctx, 2)
+    EA, EB = [vlib.unhex(r_.get("out", "-")) for r_ in pc.cli_ops(["pk_encode " + vlib.hexs(x) for x in (A, B)])]
+    pw = rng.choice([b"pw-bob", "böb ✓".encode("utf-8"), b"x"])
+    ppw = rng.choice([b"hackme", "pässwörd".encode("utf-8"), b"a", b"trail "])
+    locked_a, locked_b = pc.lock_keys([(a, pw, ctx.rbytes(32)), (b, pw, ctx.rbytes(32))])
+    P1, P2 = ctx.rbytes(rng.randrange(1, 60)), ctx.rbytes(rng.randrange(0, 60))
+    (e, epk), = keypairs(ctx, 1)
+    libs = [Case("key_enc", s=a, spk=A, r=B, e=e, epk=epk, pk=ctx.rbytes(32), data=P1),
+            Case("pass_enc", pw=ppw, salt=ctx.rbytes(32), data=P2)]
+    vlib.run_impl(ctx.bin, libs)
+    w = pc.World(prefix="kv_c03_")
+    nviol = [0]
+
+    def viol(scenario, runs, expected, observed):
+        nviol[0] += 1
+        ctx.distribution["c03cli:violations"] = ctx.distribution.get("c03cli:violations", 0) + 1
+        if nviol[0] <= 8:
+            ctx.violations.append({"input": {"kind": "proc", "scenario": scenario, "commands": [r_.describe() for r_ in runs]},
+                                   "expected": expected, "observed": observed, "finding_key": None})
+    try:
+        w.write("kr", pc.key_block(b"alice", EA, locked_a) + b"\n" + pc.key_block(b"bob", EB, locked_b))
+        w.write("pt1", P1)
+        w.write("pt2", P2)
+        bases = {"key": [], "pass": []}
+        for c_, mode, P in ((libs[0], "key", P1), (libs[1], "pass", P2)):
+            if c_.result["code"] == 0:
+                bases[mode].append(("library", c_.result["out"], P))
+            else:
+                ctx.violations.append({"input": c_.full(), "expected": "honest encryption succeeds", "observed": c_.result["outcome"], "finding_key": None})
+        r1 = w.run(["encrypt", "pt1", "-t", "bob", "-f", "alice", "-o", "ct1", "-k", "kr", "--env-pass"], env=pc.env_pw(pw))
+        r2 = w.run(["password", "encrypt", "pt2", "-o", "ct2", "--env-pass"], env=pc.env_pw(ppw))
+        for run, mode, name, P in ((r1, "key", "ct1", P1), (r2, "pass", "ct2", P2)):
+            F = w.read(name)
+            if run.rc == 0 and F:
+                bases[mode].append(("kestrel", F, P))
+            else:
+                viol("setup: the program encrypts a %d-byte file (%s mode)" % (len(P), mode), [run], "exit 0 and an output file", "exit %d" % run.rc)
+        jobs = []
+
+        def add(mode, bit, entry=None, outm=None, edit=None):
+            # edit: None (flip `bit`, or nothing when bit is None) | ("append", bytes) | ("prepend", bytes) | ("cut", n)
+            if not bases[mode]:
+                return
+            maker, F, P = rng.choice(bases[mode])
+            hdr = 132 if mode == "key" else 36
+            if bit is not None and bit >= len(F) * 8:
+                return
+            accept = edit is None and (bit is None or hdr <= bit // 8 < hdr + 8)
+            jobs.append({"i": len(jobs), "mode": mode, "maker": maker, "F": F, "P": P, "bit": bit, "accept": accept, "edit": edit,
+                         "entry": entry or rng.choice(["file", "stdin"]), "outm": outm or rng.choice(["-o", "-o", "stdout"])})
+        for mode in ("key", "pass"):
+            hdr = 132 if mode == "key" else 36
+            for entry in ("file", "stdin"):
+                for outm in ("-o", "stdout"):
+                    add(mode, None, entry, outm)
+            for bit in range(32):
+                add(mode, bit, "file")
+                add(mode, bit, "stdin")
+            if full:
+                for bit in range(32, hdr * 8):
+                    add(mode, bit, "file")
+                    add(mode, bit, "stdin")
+            else:
+                for bit in range(32, 36 * 8):
+                    add(mode, bit)
+                for byte in range(36, hdr):
+                    add(mode, byte * 8 + rng.randrange(8))
+            flen = min(len(F) for _, F, _ in bases[mode]) if bases[mode] else 0
+            body = list(range(hdr * 8, flen * 8))
+            if not full and body:
+                body = rng.sample(body[:64], 2) + rng.sample(body[64:96], 3) + rng.sample(body[96:128], 3) \
+                    + rng.sample(body[128:], min(8, len(body[128:])))
+            for bit in body:
+                add(mode, bit)
+            # bytes a front end might skip or trim: something before the magic, something after the last record, a shorter file
+            for entry in ("file", "stdin"):
+                for x in [b"\n", b"\r\n", b"\x00", b" ", b"\x1a", ctx.rbytes(rng.randrange(1, 40))]:
+                    add(mode, None, entry, edit=("append", x))
+                for x in [b"\n", b"\xef\xbb\xbf", b" ", b"\x00", ctx.rbytes(rng.randrange(1, 8))]:
+                    add(mode, None, entry, edit=("prepend", x))
+                for n in sorted(set([0, 1, 3, 4, 5, 35, 36, hdr - 1, hdr, hdr + 16, flen - 17, flen - 16, flen - 1]
+                                    + ([] if not full else list(range(flen))))):
+                    if 0 <= n < flen:
+                        add(mode, None, entry, edit=("cut", n))
+
+        def tampered(j):
+            if j["edit"] is None:
+                return j["F"] if j["bit"] is None else flip(j["F"], j["bit"])
+            k, x = j["edit"]
+            return j["F"] + x if k == "append" else (x + j["F"] if k == "prepend" else j["F"][:x])
+
+        def one(j):
+            data = tampered(j)
+            argv = ["decrypt"] if j["mode"] == "key" else ["password", "decrypt"]
+            tin, tout = "t_%d" % j["i"], "o_%d" % j["i"]
+            if j["entry"] == "file":
+                w.write(tin, data)
+                argv.append(tin)
+            if j["mode"] == "key":
+                argv += ["-t", "bob", "-k", "kr"]
+            if j["outm"] == "-o":
+                argv += ["-o", tout]
+            argv.append("--env-pass")
+            run = w.run(argv, env=pc.env_pw(pw if j["mode"] == "key" else ppw), stdin=(data if j["entry"] == "stdin" else None))
+            got = w.read(tout) if j["outm"] == "-o" else run.out
+            for n_ in (tin, tout):
+                try:
+                    os.unlink(w.p(n_))
+                except OSError:
+                    pass
+            return run, got
+        with ThreadPoolExecutor(max_workers=vlib.NPROC) as ex:
+            res = list(ex.map(one, jobs))
+        for j, (run, got) in zip(jobs, res):
+            ctx.evaluations += 1
+            ctx.oracle_checks += 1
+            if j["bit"] is not None or j["edit"] is not None:
+                ctx.distinct_nontrivial += 1
+            hdr = 132 if j["mode"] == "key" else 36
+            where = j["edit"][0] if j["edit"] else ("unchanged" if j["bit"] is None else
+                                                    ("header" if j["bit"] // 8 < hdr else ("counter" if j["accept"] else "chunk")))
+            tag = "c03cli:%s-%s-%s" % (j["mode"], where, j["entry"])
+            ctx.distribution[tag] = ctx.distribution.get(tag, 0) + 1
+            scen = ("%s-mode file of a %d-byte plaintext written by the %s (%d bytes: %s), %s, given to `kestrel %s` %s, output to %s"
+                    % (j["mode"], len(j["P"]), j["maker"], len(j["F"]), j["F"].hex(),
+                       ("%s %s" % (j["edit"][0], j["edit"][1].hex() if isinstance(j["edit"][1], bytes) else "to %d bytes" % j["edit"][1])) if j["edit"]
+                       else ("unchanged" if j["bit"] is None else "bit %d of byte %d flipped" % (j["bit"] % 8, j["bit"] // 8)),
+                       "decrypt" if j["mode"] == "key" else "password decrypt",
+                       "as a file argument" if j["entry"] == "file" else "on standard input",
+                       "-o FILE" if j["outm"] == "-o" else "standard output"))
+            released = got or b""
+            if j["accept"]:
+                if run.rc != 0 or released != j["P"]:
+                    viol(scen, [run], "the unchanged file / a change confined to the advisory counter field decrypts: exit 0 and exactly the plaintext",
+                         "exit %d, %d bytes released%s" % (run.rc, len(released), "" if released == j["P"] else " (not the plaintext)"))
+            elif run.rc == 0:
+                viol(scen, [run], "this change is rejected: exit 1, nothing released",
+                     "exit 0, output %s" % ("equals the plaintext" if released == j["P"] else released[:64].hex()))
+            elif run.rc != 1:
+                viol(scen, [run], "a damaged file is refused with the error exit status 1 (no crash)", "exit %d: %s" % (run.rc, run.errtext()[-200:]))
+            elif released or (j["outm"] == "-o" and run.out):
+                viol(scen, [run], "a file whose only chunk does not verify releases nothing",
+                     "exit 1, released %s, stdout %s" % (released[:64].hex() or "-", run.out[:64].hex() or "-"))
+            elif len(ctx.samples) < 10 and not j["accept"] and rng.random() < 0.01:
+                ctx.samples.append({"scenario": scen[:300], "exit": run.rc, "stderr": run.errtext()[-120:]})
+    finally:
+        w.close()
 
 
 REGISTRY = {}
@@ -560,7 +867,12 @@ class C01(Prop):
     rule = ("cases: chunk-hook encryptions of every plaintext length 0..5(7) under EVERY partition into reads of 1..cs "
             "bytes (cs 2,3(,1,4)) with partial writes, each decrypted under another schedule; public-API key-mode "
             "encryptions at lengths 0,1,65537 (thorough: 65535,65536,131071..131073) under assorted read schedules, each "
-            "decrypted; non-trivial = every case (no two share input+schedule)")
+            "decrypted; files of MANY chunks (chunk hooks at chunk size 1 and the key API read 1..3 bytes at a time: 255, 256, "
+            "257, ~300 chunks also through the model; 65535, 65536, 65537 and a random count above through the implementation "
+            "with the direct oracle, their records at counters 0,1,254..257,65534..65537,last compared with the model's AEAD "
+            "at that counter; thorough: 2^24+1 chunks inside the driver, op c01rt); key-mode round trips at EVERY length "
+            "2^k-17..2^k+1, k=4..16, the same windows one chunk further on and as non-final chunks (direct oracle); "
+            "non-trivial = every case (no two share input+schedule)")
     assumptions = ["X25519 commutativity (dh_comm) is a hypothesis of the key-mode round-trip theorem",
                    "AEAD/hash laws proved for the Gallina RFC instance"]
 
@@ -610,6 +922,284 @@ class C01(Prop):
             if c.result["code"] == 0:
                 out.append(Case("key_dec", r=r, rpk=rpk, data=c.result["out"], oracle=ok_eq(c.a["data"])))
         return out
+
+    def explore(self, ctx):
+        super().explore(ctx)
+        full = ctx.thorough()
+        # files of MANY chunks (counts on both sides of 2^8 and 2^16; the 64-bit chunk counter feeds the AEAD nonce)
+        small, big = c01_chunk_count_cases(ctx, full)
+        self.run_cases(ctx, small, model=True)
+        c01_direct(ctx, big)
+        # plaintext / chunk lengths on both sides of every power of two 2^4..2^16 (and one chunk further on)
+        lc = c01_length_class_cases(ctx, full)
+        c01_direct(ctx, lc)
+        if full:
+            # (quick: the model already sees key-mode files of such lengths in sequences() and api_roundtrip_cases)
+            self.run_cases(ctx, c01_model_sample(ctx, lc, 12), model=True)
+        if full:
+            c01_inproc_counts(ctx)
+
+    def replay(self, ctx, payload):
+        d = payload.get("input", {})
+        if d.get("op") == "c01_roundtrip":
+            return c01_replay_roundtrip(ctx, d, payload)
+        if d.get("op") == "c01rt":
+            res, _ = vlib.run_driver(ctx.bin, ["1 " + d["line"]], timeout=7200)
+            return {"holds": "outcome=ok" in res.get("1", ""), "implementation": res.get("1", "")[:600], "expected": payload.get("expected")}
+        return super().replay(ctx, payload)
+
+
+# ---- C01: many-chunk files and length classes (direct oracle decrypt(encrypt(P)) = P on the implementation; the model
+# is compared on the small members and on selected records of the long files)
+def c01_direct(ctx, cases, max_report=6):
+    """implementation + direct oracle only: the cases not yet run are spread over VERIF_JOBS driver processes, the oracle of
+    every case is evaluated.  A failing round trip is reported as its ENCRYPTION input plus the decryption schedule
+    (op c01_roundtrip), not as the (long) ciphertext."""
+    if not cases:
+        return
+    from concurrent.futures import ThreadPoolExecutor
+    todo = [c for c in cases if c.result is None]
+    if todo:
+        n = max(1, min(vlib.NPROC, len(todo) // 4))
+        order = sorted(todo, key=lambda c: -len(c.a.get("data", b"")))
+        shards = [order[i::n] for i in range(n)]
+        with ThreadPoolExecutor(max_workers=n) as ex:
+            list(ex.map(lambda sh_: vlib.run_impl(ctx.bin, sh_, timeout=1800), shards))
+    ctx.evaluations += len(cases)
+    dist = collections.Counter(ctx.distribution)
+    reported = 0
+    for c in cases:
+        dist["op:" + c.op] += 1
+        for t in c.tags:
+            dist["tag:" + t] += 1
+        ctx.distinct_nontrivial += 1
+        if c.expect_fn is None:
+            continue
+        ctx.oracle_checks += 1
+        msg = c.expect_fn(c.result)
+        if msg:
+            dist["c01-direct-violations"] += 1
+            if reported < max_report:
+                reported += 1
+                d = getattr(c, "c01_origin", None) or c.full()
+                ctx.violations.append({"input": d, "expected": msg[0], "observed": msg[1], "finding_key": None})
+    ctx.distribution = dict(dist)
+
+
+def c01_origin(enc, dec, extra=None):
+    """what to store for a failing decryption of an honest file: how the file was made and how it was read back"""
+    d = {"op": "c01_roundtrip", "enc": enc.full(), "dec_op": dec.op,
+         "dec": {k: (v.hex() if isinstance(v, (bytes, bytearray)) else v) for k, v in dec.a.items() if k != "data"}}
+    if extra:
+        d.update(extra)
+    return d
+
+
+def c01_replay_roundtrip(ctx, d, payload):
+    enc = case_from_full(d["enc"])
+    vlib.run_impl(ctx.bin, [enc])
+    if enc.result["code"] != 0:
+        return {"holds": False, "implementation": "encryption: " + enc.result["outcome"], "expected": payload.get("expected")}
+    a = {}
+    for k, v in d["dec"].items():
+        a[k] = bytes.fromhex(v) if isinstance(v, str) and k not in ("rs", "ws", "fs") else v
+    dec = Case(d["dec_op"], data=enc.result["out"], **a)
+    vlib.run_impl(ctx.bin, [dec])
+    holds = dec.result["code"] == 0 and dec.result["out"] == enc.a["data"]
+    if dec.op == "key_dec" and holds:
+        holds = dec.result["extra"] == enc.a["spk"]
+    return {"holds": holds, "implementation": "decryption of the implementation's own %d-byte file: %s, %d bytes released"
+            % (len(enc.result["out"]), dec.result["outcome"], len(dec.result["out"])), "expected": payload.get("expected")}
+
+
+def c01_caps(rng, n, caps=(1, 1, 1, 2, 3)):
+    """n read sizes; the plaintext length is their sum, so that every read is short and every read is one chunk"""
+    return [rng.choice(caps) for _ in range(n)]
+
+
+def c01_dec_oracle(P, spk=None, what="decrypt(encrypt(P)) = P"):
+    def f(res):
+        if res["code"] != 0 or res["out"] != P:
+            k = 0
+            while k < min(len(P), len(res["out"])) and P[k] == res["out"][k]:
+                k += 1
+            return ("%s: Ok with exactly the original %d bytes" % (what, len(P)),
+                    "%s, %d bytes released (the first %d equal the plaintext)" % (res["outcome"], len(res["out"]), k))
+        if spk is not None and res["extra"] != spk:
+            return ("decryption reports the sender's static public key", "sender=" + res["extra"].hex())
+        return None
+    return f
+
+
+def c01_chunk_count_cases(ctx, full):
+    """round trips of files with MANY chunks.  Chunk hooks at chunk size 1 (every byte a chunk) and the public key API
+    read in pieces of 1..3 bytes (every read a chunk): chunk counts 255, 256, 257 and a random one above (these
+    also go to the model), 65535, 65536, 65537 and a random one above (implementation + direct oracle; of those files
+    the records around the counter values 2^8 and 2^16, the first and the last are compared with the model's
+    chapoly_encrypt_noise at that counter).  Returns (cases for the model, cases for the direct oracle)."""
+    rng = ctx.rng
+    key = ctx.rbytes(32)
+    aad = rng.choice([b"", b"egk\x20"])
+    (s, spk), (r, rpk), (e, epk) = keypairs(ctx, 3)
+    small_counts = [255, 256, 257, rng.randrange(258, 320 if not full else 1000)]
+    big_counts = [65535, 65536, 65537, rng.randrange(65538, 66200)]
+    plan = []
+    for n in small_counts + big_counts:
+        P = ctx.rbytes(n)
+        plan.append((n, P, Case("enc_chunks", key=key, aad=aad, cs=1, data=P,
+                                oracle=ok_only("encryption over a conforming source/sink succeeds"),
+                                tags=["many-chunks", "enc", "count=%d" % n])))
+    # public API: one count on each side of 2^8 and of 2^16, every read short
+    for n in [rng.choice([255, 256, 257]), rng.choice([65536, 65537]), rng.randrange(65538, 65800)]:
+        parts = c01_caps(rng, n)
+        P = ctx.rbytes(sum(parts))
+        plan.append((n, P, Case("key_enc", s=s, spk=spk, r=rpk, e=e, epk=epk, pk=ctx.rbytes(32), data=P, rs=script_of(parts),
+                                oracle=ok_only("key encryption succeeds"), tags=["many-chunks", "enc", "count=%d" % n])))
+    encs = [c for _, _, c in plan]
+    c01_run_fresh(ctx, encs)
+    small, big, probes = [], [], []
+    for n, P, c in plan:
+        is_small = n < 1000 and c.op == "enc_chunks"
+        (small if is_small else big).append(c)
+        if c.result["code"] != 0:
+            continue
+        F = c.result["out"]
+        rs = rng.choice(["-", "c1,c1,c1,c1,c1,c1,c1", "c5,c1,c7,c2", "c16,c1,c33", "c100,c31,c1,c50000"])
+        ws = rng.choice(["-", "c1,c1", "c2,c1,c1"])
+        if c.op == "enc_chunks":
+            d = Case("dec_chunks", key=key, aad=aad, cs=1, data=F, rs=rs, ws=ws, oracle=c01_dec_oracle(P),
+                     tags=["many-chunks", "dec", "count=%d" % n])
+        else:
+            d = Case("key_dec", r=r, rpk=rpk, data=F, rs=rs, ws=ws, oracle=c01_dec_oracle(P, spk),
+                     tags=["many-chunks", "dec", "count=%d" % n])
+        d.c01_origin = c01_origin(c, d)
+        (small if is_small else big).append(d)
+        if not is_small and c.op == "enc_chunks":
+            # selected records of the long file against the model's AEAD at that counter
+            recs = [F[33 * i:33 * i + 33] for i in range(len(F) // 33)]
+            for i in sorted(set(j for j in (0, 1, 254, 255, 256, 257, 65534, 65535, 65536, 65537, n - 1) if j < len(recs))):
+                rec = recs[i]
+                p = Case("nseal", key=key, n=i, ad=aad + rec[8:16], x=P[i:i + 1], tags=["record-of-long-file"])
+                p.c01_hdr = (rec[:8], i.to_bytes(8, "big"))
+                p.c01_ct = rec[16:]
+                probes.append(p)
+    c01_model_records(ctx, probes)
+    return small, big
+
+
+def c01_run_fresh(ctx, cases):
+    from concurrent.futures import ThreadPoolExecutor
+    n = max(1, min(vlib.NPROC, len(cases)))
+    order = sorted(cases, key=lambda c: -len(c.a.get("data", b"")))
+    shards = [order[i::n] for i in range(n)]
+    with ThreadPoolExecutor(max_workers=n) as ex:
+        list(ex.map(lambda sh_: vlib.run_impl(ctx.bin, sh_, timeout=1800), shards))
+
+
+def c01_model_records(ctx, probes):
+    """probes: nseal cases whose 'implementation result' is a record cut out of a long file the encryptor wrote: the model
+    evaluates chapoly_encrypt_noise at that chunk counter and must give the record's ciphertext and tag"""
+    if not probes:
+        return
+    for i, p in enumerate(probes):
+        p.id = str(i + 1)
+        p.result = vlib.parse_result("nseal", "%s outcome=ok out=%s" % (p.id, vlib.hexs(p.c01_ct)))
+    log = vlib.run_model(probes, [], ctx.pid + "n")
+    bad = [p for p in probes if p.agree is not True]
+    ctx.evaluations += len(probes)
+    ctx.agreed += len(probes) - len(bad)
+    ctx.distribution["tag:record-of-long-file"] = ctx.distribution.get("tag:record-of-long-file", 0) + len(probes)
+    for p in bad[:8]:
+        ctx.disagreements.append({"input": p.full(), "implementation": "record %d of the encryptor's file: %s" % (p.a["n"], p.c01_ct.hex()),
+                                  "model": "chapoly_encrypt_noise at counter %d gives another value" % p.a["n"]
+                                           if p.agree is False else "model evaluation failed"})
+    if bad:
+        ctx.broken.append({"kind": "correspondence",
+                           "what": "correspondence %s: records %s of a many-chunk file are not the model's AEAD output at that chunk "
+                                   "counter%s" % (ctx.pid, sorted(set(p.a["n"] for p in bad))[:8], (" [" + log[-200:] + "]") if log else "")})
+
+
+C01_EDGE_K = list(range(4, 17))
+
+
+def c01_edge_lengths(k):
+    return list(range(2 ** k - 17, 2 ** k + 2))
+
+
+def c01_length_class_cases(ctx, full):
+    """key-mode round trips (public API, production chunk size) over the lengths a buffer-size special case could single
+    out: EVERY plaintext length 2^k-17 .. 2^k+1 for k = 4..16 as a whole file, the same window one chunk further on
+    (65536 + 2^j-17 .. 2^j+1; quick: j = 12 and two random j, thorough: all j and 2*65536 as well), and such lengths as
+    NON-final chunks (a source that hands out three pieces of that length)."""
+    rng = ctx.rng
+    (s, spk), (r, rpk), (e, epk) = keypairs(ctx, 3)
+    plan = []
+
+    def add(P, rs, tag):
+        plan.append((P, Case("key_enc", s=s, spk=spk, r=rpk, e=e, epk=epk, pk=ctx.rbytes(32), data=P, rs=rs,
+                             oracle=ok_only("key encryption succeeds"), tags=["length-class", "enc", tag])))
+    for k in C01_EDGE_K:
+        for n in c01_edge_lengths(k):
+            add(ctx.rbytes(n), "-", "whole=2^%d" % k)
+    js = list(range(4, 16)) if full else sorted(set([12] + rng.sample(range(4, 16), 2)))
+    for base in ([BIG, 2 * BIG] if full else [BIG]):
+        for j in js:
+            for n in c01_edge_lengths(j):
+                add(ctx.rbytes(base + n), "-", "tail=2^%d" % j)
+    # as non-final chunks: three reads of L bytes, then a few bytes more
+    ls = [n for k in C01_EDGE_K for n in c01_edge_lengths(k) if n <= BIG]
+    for L in (ls if full else sorted(set(rng.sample(ls, 36) + [rng.randrange(4081, 4097), rng.randrange(2 ** 15 - 16, 2 ** 15 + 1)]))):
+        tail = rng.choice([0, 1, rng.randrange(0, 40)])
+        add(ctx.rbytes(3 * L + tail), "c%d,c%d,c%d" % (L, L, L), "piece")
+    encs = [c for _, c in plan]
+    c01_run_fresh(ctx, encs)
+    out = []
+    for P, c in plan:
+        out.append(c)
+        if c.result["code"] != 0:
+            continue
+        rs = rng.choice(["-", "-", "-", "c1,c1,c1,c1,c1", "c100,c31,c1,c50000", "c4096,c4096,c16"])
+        ws = rng.choice(["-", "-", "c1000", "c1,c65535"])
+        d = Case("key_dec", r=r, rpk=rpk, data=c.result["out"], rs=rs, ws=ws, oracle=c01_dec_oracle(P, spk),
+                 tags=["length-class", "dec", c.tags[2]])
+        d.c01_origin = c01_origin(c, d)
+        out.append(d)
+    return out
+
+
+def c01_model_sample(ctx, cases, n):
+    """a few of the short length-class round trips again, this time for the model as well"""
+    rng = ctx.rng
+    encs = [c for c in cases if c.op == "key_enc" and len(c.a["data"]) <= 300 and c.result and c.result["code"] == 0]
+    out = []
+    for c in rng.sample(encs, min(n, len(encs))):
+        a = dict(c.a)
+        out.append(Case("key_enc", oracle=ok_only("key encryption succeeds"), tags=["length-class", "enc", "model"], **a))
+        d = [x for x in cases if x.op == "key_dec" and x.a["data"] == c.result["out"]]
+        if d:
+            out.append(Case("key_dec", oracle=d[0].expect_fn, tags=["length-class", "dec", "model"], **dict(d[0].a)))
+    return out
+
+
+def c01_inproc_counts(ctx):
+    """thorough: 2^24 + 1 chunks, inside the driver (libdrv op c01rt: the plaintext comes from a generator, the encryptor
+    and the decryptor run in two threads joined by a pipe, nothing is stored)"""
+    rng = ctx.rng
+    lines = []
+    for n in (2 ** 24 + 1 + rng.randrange(0, 50),):
+        lines.append("c01rt %s %s 1 %d %d 1" % (vlib.hexs(ctx.rbytes(32)), vlib.hexs(rng.choice([b"", b"egk\x20"])), n, rng.getrandbits(32)))
+    for i, l in enumerate(lines):
+        res, _ = vlib.run_driver(ctx.bin, ["%d %s" % (i, l)], timeout=7200)
+        line = res.get(str(i), "outcome=missing")
+        ctx.evaluations += 1
+        ctx.oracle_checks += 1
+        ctx.distinct_nontrivial += 1
+        ctx.distribution["tag:many-chunks-inproc"] = ctx.distribution.get("tag:many-chunks-inproc", 0) + 1
+        if "outcome=badop" in line:
+            ctx.broken.append({"kind": "machinery", "what": "libdrv has no op c01rt"})
+        elif "outcome=ok" not in line:
+            ctx.violations.append({"input": {"op": "c01rt", "line": l}, "expected": "decrypt(encrypt(P)) = P for a plaintext of %s one-byte chunks"
+                                   % l.split()[4], "observed": line[:400], "finding_key": None})
 
 
 # =========================================================================== kva: password / salt / key-relation families
@@ -861,7 +1451,14 @@ class C02(KvaRefKdf, Prop):
             "of 64/128/256/512/1024/.. in six content styles, each file also tried with close passwords (last byte, "
             "bytes beyond every power-of-two boundary, prefixes, extensions, case, halves swapped) that are NOT related "
             "by RFC 2104 key normalisation; special salts (all-zero, all-0xff, constant byte, ascending, ..) round-tripped; "
-            "non-trivial = all")
+            "at the command line (real `kestrel password encrypt|decrypt --env-pass` processes): round trips of every "
+            "plaintext length 0..40 and around 65536/131072 from a file argument and from stdin (one write; first delivery of "
+            "1,2,3,.. bytes; byte by byte; random cuts; ciphertext cut inside magic/salt/chunk header), each delivery sent only "
+            "after the previous one was taken; passwords of many surface shapes each tried against ~50 look-alike DIFFERENT "
+            "passwords (quoted, blanks/CR/LF/TAB/BOM added or trimmed, NFC/NFD/NFKC, case, escapes, truncations, ..): exit 1, "
+            "nothing released; input/output NAME families in one directory with bystander files (same stem other extension, "
+            "output = input + suffix and back, hidden, blanks, non-ASCII, leading dash, other directory) with whole-directory "
+            "snapshots; non-trivial = all")
     assumptions = ["scrypt at N=32768 is not evaluated in Coq: the model takes the derived key from a table filled with "
                    "the RFC 7914 reference value (OpenSSL's scrypt through hashlib, the reference of C18; the "
                    "implementation's own scrypt only if no reference is available)",
@@ -905,6 +1502,16 @@ class C02(KvaRefKdf, Prop):
         out = out + roundtrip_chunk_cases(ctx, False)[:120]
         # password LENGTH / content families and special salts; close-but-different passwords must be refused
         return out + kva_password_family_cases(ctx, ctx.thorough())
+
+    def explore(self, ctx):
+        super().explore(ctx)
+        # the command-line half (`kestrel password encrypt|decrypt --env-pass`, tools/props_lib_cli.py)
+        props_lib_cli.c02_cli_part(self, ctx)
+
+    def replay(self, ctx, payload):
+        if payload.get("input", {}).get("kind") == "proc":
+            return props_lib_cli.s2_replay(ctx, payload)
+        return super().replay(ctx, payload)
 
 
 def frozen_corpus_cases(ctx):
@@ -1310,6 +1917,11 @@ class C10(Prop):
             "error, zero-length), plus random multi-fault scripts; observation = outcome class, bytes written, full I/O "
             "trace; plus caller errors that PANIC in the middle of a run (key of 0/1/31/33/64 bytes at the chunk hooks, 31-byte "
             "payload key): the reads made before the panic and the untouched sink are compared with the model's partial state; "
+            "at the command line (real processes, all four file commands): outputs of 0,1,100,8191,8192,8193,65536,65537,.. "
+            "bytes sent to a full device (private node 1:7), to a pipe without reader, to a file under RLIMIT_FSIZE (last byte / "
+            "random tail does not fit; control: fits exactly), -o a directory / in a missing directory, input a directory: "
+            "exit 1 with an Error line naming the failing side whenever the complete output did not arrive, never a crash, "
+            "file content a prefix of the fault-free output; "
             "non-trivial = runs containing at least one fault")
     assumptions = ["std::io::Read::read_exact / Write::write_all default loops are transcribed in IO.v"]
 
@@ -1385,6 +1997,16 @@ class C10(Prop):
                 out.append(Case(b.op, oracle=orc, tags=[tag.split("@")[0]], **a))
         out += t2_panic_observation_cases(ctx)
         return out
+
+    def explore(self, ctx):
+        super().explore(ctx)
+        # the command-line half (the four file commands with output that cannot be delivered, tools/props_lib_cli.py)
+        props_lib_cli.c10_cli_part(self, ctx)
+
+    def replay(self, ctx, payload):
+        if payload.get("input", {}).get("kind") == "proc":
+            return props_lib_cli.s2_replay(ctx, payload)
+        return super().replay(ctx, payload)
 
 
 def t2_hkdf_panic_cases(ctx):
@@ -1528,9 +2150,14 @@ class C04(Prop):
             "written and the full I/O trace (order and sizes of every read, write, flush), which must equal the model's; "
             "direct oracle on the implementation: released bytes are a prefix of the plaintext in whole chunks unless the "
             "sink itself cut a write, Ok only with the complete plaintext after a 0-byte probe read, no I/O event after the "
-            "event that determined an error; non-trivial = not the unmodified fault-free run")
+            "event that determined an error; non-trivial = not the unmodified fault-free run; CLI half (s4a_c04_cli_release): real "
+            "`decrypt` / `password decrypt` processes on key and password files of 0, 1, 64 KiB-1/+0/+1, 2 and 3 chunks (thorough: more), "
+            "intact and damaged in chunk 1, 2, 3.. (header / body / tag bit, truncation inside and between chunks, appended bytes), "
+            "plaintext destination {stdout pipe | stdout redirected to a file | -o} x stderr {pipe | file | terminal}, sender's key "
+            "first / last / absent in the keyring: the destination receives EXACTLY the plaintext resp. the authenticated prefix; and the "
+            "same on a pseudo-terminal with the password prompted for and every prompt answered (tools/ptyrun.py): the prefix, once, exit 1")
     assumptions = ["no-forgery-in-run premise for the authenticity part (as C03)",
-                   "the CLI half (lazily created output file) is C13"]
+                   "the CLI half observes the destination after the process has ended (not at every moment); the lazily created output file is C13"]
 
     def oracle(self, P, cs, writer_faulty):
         def f(r):
@@ -1629,6 +2256,285 @@ class C04(Prop):
             out.append(Case("dec_chunks", oracle=orc, tags=["modified"] + [t for t in c.tags if t != "trivial"], **a))
         return out
 
+    # ---- CLI half: what ARRIVES at the plaintext destination of `kestrel decrypt` / `kestrel password decrypt`
+    def explore(self, ctx):
+        super().explore(ctx)
+        if os.path.exists(vlib.CLIDRV):
+            s4a_c04_cli_release(self, ctx)
+        else:
+            ctx.broken.append({"kind": "correspondence", "what": "clidrv was not built: CLI half of C04 (bytes at the plaintext destination) not checked"})
+
+    def replay(self, ctx, payload):
+        if payload.get("input", {}).get("kind") == "proc":
+            import props_cli
+            return props_cli.k_replay(ctx, payload)
+        return super().replay(ctx, payload)
+
+
+def s4a_ptyrun(job):
+    """tools/ptyrun.py in a process of its own: one command on a pseudo-terminal, typed lines delivered at the password prompts"""
+    import json, subprocess, sys
+    try:
+        p = subprocess.run([sys.executable, os.path.join(vlib.VERIF, "tools", "ptyrun.py")], input=json.dumps(job).encode(),
+                           stdout=subprocess.PIPE, stderr=subprocess.PIPE, timeout=float(job.get("timeout", 120)) + 30)
+        d = json.loads(p.stdout.decode() or "{}")
+    except (subprocess.TimeoutExpired, ValueError) as e:
+        d = {"error": repr(e)[:200]}
+    d.setdefault("rc", 125)
+    for k in ("stdout", "stderr", "pty"):
+        d[k] = bytes.fromhex(d.get(k, ""))
+    return d
+
+
+def s4a_c04_cli_release(self, ctx):
+    """C04 at the command line.  The plaintext destination of a decrypting command is the -o file or, without -o, STANDARD
+    OUTPUT; whatever arrives there must be exactly the authenticated plaintext (success) resp. exactly the authenticated
+    prefix in whole chunks (failure) — no byte that is not the output of a verified chunk, no chunk twice.
+    Part 1 (passwords from the environment): key and password files of lengths 0, 1, 64 KiB -1/+0/+1, 2 and 3 chunks, intact and
+      damaged (bit flips in header / body / tag of chunk 1, 2, 3.., truncations inside and between chunks, appended bytes),
+      decrypted to {stdout pipe | stdout redirected to a file | -o} x stderr {pipe | file | terminal} with the sender's key
+      first / last / absent in the recipient's keyring (an unknown sender makes the tool print MORE: none of it may reach
+      the destination).
+    Part 2 (pseudo-terminal, tools/ptyrun.py): the password is PROMPTED for and every prompt is answered; files damaged in
+      chunk 2+ and intact ones, `password decrypt FILE -o out` and key `decrypt` (first answer wrong: the unlock prompt is
+      legitimately repeated): the destination holds exactly the authenticated prefix, once; exit 1."""
+    import time, hashlib
+    import props_cli as pc
+    from concurrent.futures import ThreadPoolExecutor
+    rng = ctx.rng
+    full = ctx.thorough()
+    CH = pc.CHUNK
+    t_start = time.time()
+    dist = ctx.distribution
+
+    def count(k, n=1):
+        dist[k] = dist.get(k, 0) + n
+
+    def judge(ok, scen, cmds, exp, obs):
+        ctx.oracle_checks += 1
+        if not ok:
+            ctx.violations.append({"input": {"kind": "proc", "scenario": scen, "commands": cmds}, "expected": exp, "observed": obs, "finding_key": None})
+        return ok
+    sks = [ctx.rbytes(32) for _ in range(3)]
+    pks = [vlib.unhex(r_["out"]) for r_ in pc.lib_ops(ctx.bin, ["xpub " + vlib.hexs(k) for k in sks])]
+    (b, B), (m, M), (c, C) = zip(sks, pks)
+    EB, EM, EC = [c05_pk_text(x) for x in (B, M, C)]
+    pwb = rng.choice([b"pw-bob", "b\u00f6b \u2713".encode("utf-8"), b"x y"])
+    pwm = b"pw mallory"
+    ppw = ("pass phrase %s" % ctx.rbytes(3).hex()).encode()
+    locked_b, locked_m = pc.lock_keys([(b, pwb, ctx.rbytes(32)), (m, pwm, ctx.rbytes(32))])
+    blk = pc.key_block
+    bob = blk(b"bob", EB, locked_b)
+    rings = {"first": blk(b"mallory", EM) + b"\n" + bob + b"\n" + blk(b"carol", EC),
+             "last": blk(b"carol", EC) + b"\n" + bob + b"\n" + blk(b"mallory", EM),
+             "absent": bob + b"\n" + blk(b"carol", EC),
+             "absent-alone": bob}
+    lens = [0, 1, CH - 1, CH, CH + 1, 2 * CH, 2 * CH + rng.randrange(1, CH), 3 * CH]
+    if full:
+        lens += [2, 1000, 2 * CH - 1, 2 * CH + 1, 3 * CH + 5, 4 * CH, 5 * CH + rng.randrange(1, CH)]
+    w = pc.World(prefix="kv_c04_")
+    try:
+        w.write("kr_send", blk(b"mallory", EM, locked_m) + b"\n" + blk(b"bob", EB))
+        for k, v in rings.items():
+            w.write("kr_" + k, v)
+        PT = {}
+        for n in lens:
+            PT[n] = ctx.rng.getrandbits(8 * n).to_bytes(n, "big") if n else b""
+            w.write("pt_%d" % n, PT[n])
+
+        def enc(job):
+            mode, n = job
+            if mode == "key":
+                return w.run(["encrypt", "pt_%d" % n, "-t", "bob", "-f", "mallory", "-o", "kct_%d" % n, "-k", "kr_send", "--env-pass"], env=pc.env_pw(pwm))
+            return w.run(["password", "encrypt", "pt_%d" % n, "-o", "pct_%d" % n, "--env-pass"], env=pc.env_pw(ppw))
+        ejobs = [(mode, n) for mode in ("key", "pass") for n in lens]
+        with ThreadPoolExecutor(max_workers=vlib.NPROC) as ex:
+            eres = list(ex.map(enc, ejobs))
+        F = {}
+        for (mode, n), r in zip(ejobs, eres):
+            hdr = pc.HDR if mode == "key" else pc.PHDR
+            nrec = max(1, -(-n // CH))
+            data = w.read(("kct_%d" if mode == "key" else "pct_%d") % n)
+            if not judge(r.rc == 0 and data is not None and len(data) == hdr + 32 * nrec + n, "C04 cli setup: %s encryption of %d bytes" % (mode, n),
+                         [r.describe()], "exit 0 and a file of %d bytes" % (hdr + 32 * nrec + n), "exit %d, %s bytes" % (r.rc, None if data is None else len(data))):
+                continue
+            F[(mode, n)] = (data, hdr, nrec)
+
+        def damages(mode, n, only_later=False):
+            """[(label, bytes, authenticated prefix length, kind)] for the file (mode, n); kind: header | body | tag (a bit of that part
+            of a chunk flipped; bytes 0..7 of a chunk header are not looked at by the format and are left alone) | cut | cut-boundary | tail"""
+            data, hdr, nrec = F[(mode, n)]
+            out = []
+            off = hdr
+            for i in range(nrec):
+                size = 32 + (CH if i < nrec - 1 else n - (nrec - 1) * CH)
+                if i > 0 or not only_later:
+                    rel = {"header": rng.randrange(8, 16), "tag": size - 1 - rng.randrange(0, 16)}
+                    if size > 32:
+                        rel["body"] = rng.randrange(16, size - 16)
+                    for part, o in rel.items():
+                        bit = 1 << rng.randrange(8)
+                        out.append(("bit %#x of byte %d (chunk %d of %d, %s) flipped" % (bit, off + o, i + 1, nrec, part),
+                                    data[:off + o] + bytes([data[off + o] ^ bit]) + data[off + o + 1:], i * CH, part))
+                    cut = off + rng.randrange(1, size)
+                    out.append(("truncated to %d bytes (inside chunk %d of %d)" % (cut, i + 1, nrec), data[:cut], i * CH, "cut"))
+                    if i > 0:
+                        out.append(("truncated to %d bytes (after chunk %d of %d, which is not marked final)" % (off, i, nrec), data[:off], i * CH, "cut-boundary"))
+                off += size
+            tail = ctx.rbytes(rng.choice([1, 2, 16, 33]))
+            out.append(("%d bytes appended after the final chunk" % len(tail), data + tail, (nrec - 1) * CH, "tail"))
+            return out
+        jobs = []
+
+        def add(mode, n, label, data, keep, ok, ring, o, e):
+            i = len(jobs)
+            name = "in_%d" % i
+            w.write(name, data)
+            jobs.append({"i": i, "mode": mode, "n": n, "label": label, "in": name, "want": PT[n][:keep] if not ok else PT[n], "ok": ok, "ring": ring,
+                         "out": o, "err": e, "sha": hashlib.sha256(data).hexdigest(), "size": len(data)})
+        outs = ("pipe", "pipe", "file", "o")
+        errs = ("pipe", "file", "pty")
+        for mode in ("key", "pass"):
+            for n in lens:
+                if (mode, n) not in F:
+                    continue
+                for ring in (("first", "last", "absent") if mode == "key" else (None,)):
+                    for o in (("pipe", "file", "o") if full else (rng.choice(outs),)):
+                        add(mode, n, "intact", F[(mode, n)][0], n, True, ring, o, rng.choice(errs))
+                if mode == "key":
+                    add(mode, n, "intact", F[(mode, n)][0], n, True, "absent-alone", "pipe", rng.choice(errs))
+                ds = damages(mode, n)
+                for (label, data, keep, _kind) in (ds if full else rng.sample(ds, min(len(ds), 2 if F[(mode, n)][2] == 1 else 4))):
+                    add(mode, n, label, data, keep, False, rng.choice(["first", "last", "absent", "absent"]) if mode == "key" else None,
+                        rng.choice(outs), rng.choice(errs))
+
+        def one(j):
+            i = j["i"]
+            if j["mode"] == "key":
+                argv = ["decrypt", j["in"], "-t", "bob", "-k", "kr_" + j["ring"], "--env-pass"]
+                env = pc.env_pw(pwb)
+            else:
+                argv = ["password", "decrypt", j["in"], "--env-pass"]
+                env = pc.env_pw(ppw)
+            if j["out"] == "o":
+                argv += ["-o", "dst_%d" % i]
+            r = pc.s4a_proc(w, argv, env=env, out=("file", w.p("so_%d" % i)) if j["out"] == "file" else "pipe",
+                            err={"pipe": "pipe", "pty": "pty", "file": ("file", w.p("se_%d" % i))}[j["err"]])
+            if r is None:           # no pseudo-terminal here: the same run with stderr on a pipe
+                r = pc.s4a_proc(w, argv, env=env, out=("file", w.p("so_%d" % i)) if j["out"] == "file" else "pipe", err="pipe")
+            filed = w.read("dst_%d" % i) if j["out"] == "o" else None
+            for f in ("dst_%d" % i, "so_%d" % i, "se_%d" % i, j["in"]):
+                try:
+                    os.remove(w.p(f))
+                except OSError:
+                    pass
+            return r, filed
+        with ThreadPoolExecutor(max_workers=vlib.NPROC) as ex:
+            res = list(ex.map(one, jobs))
+        where = {"pipe": "standard output (a pipe)", "file": "standard output (redirected to a file)", "o": "the -o file"}
+        for j, (r, filed) in zip(jobs, res):
+            ctx.evaluations += 1
+            ctx.distinct_nontrivial += 1
+            count("c04cli:%s-%s->%s" % (j["mode"], "intact" if j["ok"] else "damaged", j["out"]))
+            if j["ring"]:
+                count("c04cli:sender-" + j["ring"])
+            scen = ("C04 cli: %s file of a %d-byte plaintext (%d chunk(s)), %s [%d bytes, sha256 %s]; plaintext destination = %s; stderr = %s%s"
+                    % ("key" if j["mode"] == "key" else "password", j["n"], max(1, -(-j["n"] // CH)), j["label"], j["size"], j["sha"][:16], where[j["out"]], j["err"],
+                       "; sender's key %s in the recipient's keyring" % j["ring"] if j["ring"] else ""))
+            got = (filed or b"") if j["out"] == "o" else r.out
+            cmds = [dict(r.describe(), keyring=rings[j["ring"]].decode()) if j["ring"] else r.describe()]
+            judge(r.rc == (0 if j["ok"] else 1), scen, cmds, "exit %d" % (0 if j["ok"] else 1), "exit %d; stderr %r" % (r.rc, r.err[-200:]))
+            judge(got == j["want"], scen, cmds,
+                  "the destination receives exactly the %d bytes of the %s and nothing else" % (len(j["want"]), "authentic plaintext" if j["ok"] else
+                                                                                             "authenticated prefix (whole chunks before the failure)"),
+                  "%d bytes arrived, first difference at %s; bytes past the expected end: %r" % (len(got), pc.first_diff(got, j["want"]), got[len(j["want"]):][:80]))
+            if j["out"] == "o":
+                judge(r.out == b"", scen, cmds, "with -o nothing is written to standard output", "stdout %r" % r.out[:80])
+        count("c04cli:seconds-part1", round(time.time() - t_start, 1))
+
+        # ---------------- Part 2: prompted passwords on a pseudo-terminal
+        t2 = time.time()
+        multi = [n for n in lens if (("pass", n) in F and F[("pass", n)][2] >= 2)]
+        pj = []
+
+        def addp(mode, n, label, data, keep, ok, typed, dest):
+            i = len(pj)
+            name = "pin_%d" % i
+            w.write(name, data)
+            if mode == "pass":
+                argv = ["password", "decrypt", name]
+            else:
+                argv = ["decrypt", name, "-t", "bob", "-k", "kr_" + rng.choice(["first", "last", "absent"])]
+            so = "pipe"
+            if dest == "o":
+                argv += ["-o", "pdst_%d" % i]
+                so = rng.choice(["pipe", "file", "pty"])
+            elif dest == "file":
+                so = "file"
+            pj.append({"i": i, "mode": mode, "n": n, "label": label, "want": PT[n] if ok else PT[n][:keep], "ok": ok, "dest": dest, "size": len(data),
+                       "sha": hashlib.sha256(data).hexdigest(),
+                       "job": {"argv": [vlib.CLIDRV] + argv, "env": {"PATH": "/usr/bin:/bin", "HOME": w.dir, "LANG": "C.UTF-8", "RUST_BACKTRACE": "0"},
+                               "cwd": w.dir, "ctty": rng.random() < 0.5, "stdin": "pty", "stdout": so, "stderr": rng.choice(["pipe", "file", "pty"]),
+                               "stdout_path": w.p("pso_%d" % i), "stderr_path": w.p("pse_%d" % i), "typed": typed, "timeout": 90}})
+        P3 = [ppw.decode()] * 3
+
+        def pick(ds):
+            """every run of the quick tier sees each way a LATER chunk can fail: an authentication failure (body, tag) is not the
+            same error as a framing or a read error"""
+            if full:
+                return ds
+            by = {}
+            for d in ds:
+                by.setdefault(d[3], []).append(d)
+            return [rng.choice(v) for k, v in sorted(by.items()) if k in ("body", "tag")] + [rng.choice([d for d in ds if d[3] not in ("body", "tag")])]
+        for n in (multi if full else rng.sample(multi, min(len(multi), 2))):
+            for (label, data, keep, _kind) in pick(damages("pass", n, only_later=True)):
+                addp("pass", n, label, data, keep, False, P3, rng.choice(["o", "o", "o", "pipe", "file"]))
+        n = rng.choice(multi)
+        addp("pass", n, "intact", F[("pass", n)][0], n, True, P3, "o")
+        n = rng.choice([x for x in lens if ("pass", x) in F])
+        first = [d for d in damages("pass", n) if d[2] == 0]
+        addp("pass", n, first[0][0], first[0][1], 0, False, P3, "o")
+        kmulti = [n for n in lens if (("key", n) in F and F[("key", n)][2] >= 2)]
+        K4 = ["not " + pwb.decode(), pwb.decode(), pwb.decode(), pwb.decode()]
+        for n in (kmulti if full else rng.sample(kmulti, min(len(kmulti), 1))):
+            for (label, data, keep, _kind) in pick(damages("key", n, only_later=True)):
+                addp("key", n, label, data, keep, False, K4, rng.choice(["o", "pipe"]))
+            addp("key", n, "intact", F[("key", n)][0], n, True, K4, "o")
+        with ThreadPoolExecutor(max_workers=vlib.NPROC) as ex:
+            pres = list(ex.map(lambda x: s4a_ptyrun(x["job"]), pj))
+        for j, d in zip(pj, pres):
+            job = j["job"]
+            if d.get("error") or (d["rc"] == 125 and not d["pty"] and not d["stderr"]):
+                count("c04cli:pty-not-available")
+                continue
+            ctx.evaluations += 1
+            ctx.distinct_nontrivial += 1
+            count("c04cli:pty-%s-%s->%s" % (j["mode"], "intact" if j["ok"] else "damaged", j["dest"]))
+            if j["dest"] == "o":
+                got = w.read("pdst_%d" % j["i"]) or b""
+            elif j["dest"] == "file":
+                got = w.read("pso_%d" % j["i"]) or b""
+            else:
+                got = d["stdout"]
+            said = d["pty"] + d["stderr"] + (w.read("pse_%d" % j["i"]) or b"")
+            scen = ("C04 cli on a terminal: %s file of a %d-byte plaintext (%d chunks), %s [%d bytes, sha256 %s]; the password is prompted for on a "
+                    "pseudo-terminal (stdin; controlling terminal: %s) and every prompt is answered with %r; plaintext destination = %s"
+                    % (j["mode"], j["n"], max(1, -(-j["n"] // CH)), j["label"], j["size"], j["sha"][:16], "yes" if job["ctty"] else "none", job["typed"],
+                       where[j["dest"]]))
+            cmds = [{"argv": ["kestrel"] + job["argv"][1:], "stdin": "pseudo-terminal", "stdout": job["stdout"], "stderr": job["stderr"],
+                     "typed_at_the_prompts": job["typed"], "exit": d["rc"], "timed_out": d.get("timed_out"), "prompts_answered": d.get("sent"),
+                     "said": said[-400:].decode("utf-8", "replace")}]
+            judge(d["rc"] == (0 if j["ok"] else 1) and not d.get("timed_out"), scen, cmds, "exit %d after ONE attempt" % (0 if j["ok"] else 1),
+                  "exit %d%s, %s prompts answered" % (d["rc"], " (killed after the timeout)" if d.get("timed_out") else "", d.get("sent")))
+            judge(got == j["want"], scen, cmds,
+                  "the destination holds exactly the %d bytes of the %s, once" % (len(j["want"]), "authentic plaintext" if j["ok"] else "authenticated prefix"),
+                  "%d bytes arrived, first difference at %s; the first chunk occurs %d time(s)" % (
+                      len(got), pc.first_diff(got, j["want"]), got.count(PT[j["n"]][:CH]) if j["n"] >= CH else -1))
+        count("c04cli:seconds-part2", round(time.time() - t2, 1))
+    finally:
+        w.close()
+
 
 REGISTRY["C04"] = C04()
 
@@ -1687,7 +2593,10 @@ class C05(Prop):
             "with wrong recipient private key, wrong recipient public key, both; all low-order and non-canonical-low-order "
             "X25519 points (14 encodings) as recipient for encryption, as ephemeral key and as claimed sender key (with the "
             "all-zero secret an attacker would have to use) in forged files; header splices are in C03; non-trivial = every "
-            "case except the two honest reference files")
+            "case except the two honest reference files; CLI (s4a_c05_key_bytes): encode_public_key / decode_public_key on raw keys with "
+            "bit 255 set, non-canonical field elements, single bits, random; `kestrel decrypt` on library-made files whose embedded sender "
+            "key is S and S | bit 255, keyrings listing the canonical key / the bit-255 key / both / neither: the entry named is the one "
+            "whose key EQUALS the bytes the library authenticated, an unknown key is printed with an encoding that decodes to them")
     assumptions = ["X25519 symmetry and hardness (CDH), key separation of HKDF are not proved",
                    "that every low-order point yields the all-zero output for every scalar is exercised, not proved"]
 
@@ -1769,6 +2678,7 @@ class C05(Prop):
         super().explore(ctx)
         if os.path.exists(vlib.CLIDRV):
             c05_cli_sender_lookup(self, ctx)
+            s4a_c05_key_bytes(self, ctx)
         else:
             ctx.broken.append({"kind": "correspondence", "what": "clidrv was not built: CLI half of C05 (sender name lookup) not checked"})
 
@@ -1987,8 +2897,155 @@ def c05_cli_sender_lookup(self, ctx):
         w.close()
 
 
+def s4a_c05_key_bytes(self, ctx):
+    """C05 / C12 at the command line: the key `kestrel decrypt` looks up in the keyring and prints is THE 32 BYTES the library
+    authenticated — it names the entry whose public key EQUALS them, or reports them as unknown with an encoding that decodes
+    to exactly them.  X25519 ignores bit 255 of a public key, so a file whose embedded sender key has that bit set verifies
+    under the same private key (the library reports the bytes as embedded); the keyring entry with the bit clear is a
+    DIFFERENT byte string.
+    Part A (in-process): Keyring::encode_public_key / decode_public_key on a family of raw keys (bit 255 set, all ones,
+      zero, the field prime and its neighbours, non-canonical field elements, single bits, random): the documented encoding
+      base64(key || sha256(key)[..4]) of exactly these bytes, and back.
+    Part B (processes): files made by the library encryptor with sender_public = S and = S | bit 255 (two sender key pairs),
+      decrypted with keyrings listing the canonical key / the bit-255 key / both (either order) / neither, over random wirings
+      of stdout and stderr: the report is derived from the key the LIBRARY returned for that file."""
+    import base64, hashlib
+    import props_cli as pc
+    from concurrent.futures import ThreadPoolExecutor
+    rng = ctx.rng
+    full = ctx.thorough()
+    dist = ctx.distribution
+
+    def count(k, n=1):
+        dist[k] = dist.get(k, 0) + n
+    # ---------------- Part A
+    p25519 = (1 << 255) - 19
+    le = lambda x: x.to_bytes(32, "little")
+    raws = [bytes(31) + b"\x80", b"\xff" * 32, bytes(32), b"\x80" + bytes(31), le(p25519), le(p25519 - 1), le(p25519 + 1), le((1 << 255) - 1), le(1 << 255),
+            le(p25519 + (1 << 255)), le(9), le(9 + (1 << 255)), le(1), le(8), le(0xf8), bytes([0xf8]) + b"\xff" * 30 + b"\x7f", bytes([7]) + bytes(30) + b"\x40"]
+    raws += [le(1 << k) for k in ([0, 1, 2, 7, 8, 253, 254, 255] if not full else range(256))]
+    for _ in range(24 if not full else 200):
+        r_ = bytearray(ctx.rbytes(32))
+        if rng.random() < 0.6:
+            r_[31] |= 0x80
+        if rng.random() < 0.2:
+            r_[0] |= 7
+        raws.append(bytes(r_))
+    raws = list(dict.fromkeys(raws))
+    enc = pc.cli_ops(["pk_encode " + vlib.hexs(x) for x in raws])
+    dec = pc.cli_ops(["pk_decode " + vlib.hexs(c05_pk_text(x)) for x in raws])
+    for x, e_, d_ in zip(raws, enc, dec):
+        ctx.evaluations += 2
+        ctx.oracle_checks += 2
+        count("c05cli:pk-encode-%s" % ("bit255-set" if x[31] & 0x80 else "bit255-clear"))
+        want = c05_pk_text(x)
+        got = vlib.unhex(e_.get("out", "-")) if e_.get("outcome") == "ok" else None
+        if got != want:
+            back = None
+            try:
+                back = base64.b64decode(got or b"")[:32].hex()
+            except Exception:
+                pass
+            ctx.violations.append({"input": {"op": "pk_encode", "pk": x.hex()},
+                                   "expected": "the documented text encoding of exactly these 32 bytes: %s" % want.decode(),
+                                   "observed": "%s (decodes to the key %s)" % (e_, back), "finding_key": None})
+        if d_.get("outcome") != "ok" or vlib.unhex(d_.get("out", "-")) != x:
+            ctx.violations.append({"input": {"op": "pk_decode", "text": want.decode()}, "expected": "the 32 bytes " + x.hex(), "observed": str(d_),
+                                   "finding_key": None})
+    # ---------------- Part B
+    sks = [ctx.rbytes(32) for _ in range(4)]
+    pks = [vlib.unhex(r_["out"]) for r_ in pc.lib_ops(ctx.bin, ["xpub " + vlib.hexs(k) for k in sks])]
+    (b, B), (m, M), (n, N), (c, C) = zip(sks, pks)
+    hi = lambda k: k[:31] + bytes([k[31] | 0x80])
+    pw = rng.choice([b"pw-bob", b"x", b"two words"])
+    locked_b, = pc.lock_keys([(b, pw, ctx.rbytes(32))])
+    blk = pc.key_block
+    T = c05_pk_text
+    bob = blk(b"bob", T(B), locked_b)
+    P = ctx.rbytes(rng.randrange(0, 300))
+    files = []
+    for who, sk, claim in (("mallory", m, M), ("mallory", m, hi(M)), ("nobody", n, N), ("nobody", n, hi(N))):
+        ek = ctx.rbytes(32)
+        epk = vlib.unhex(pc.lib_ops(ctx.bin, ["xpub " + vlib.hexs(ek)])[0]["out"])
+        e_ = Case("key_enc", s=sk, spk=claim, r=B, e=ek, epk=epk, pk=ctx.rbytes(32), data=P)
+        vlib.run_impl(ctx.bin, [e_])
+        if e_.result["code"] != 0:
+            count("c05cli:bit255-file-not-produced")
+            continue
+        d_ = Case("key_dec", r=b, rpk=B, data=e_.result["out"])
+        vlib.run_impl(ctx.bin, [d_])
+        if d_.result["code"] != 0 or d_.result["out"] != P:
+            count("c05cli:bit255-file-rejected-by-the-library")      # the library's business (C05 library half), nothing to look up
+            continue
+        files.append({"who": who, "claim": claim, "auth": d_.result["extra"], "data": e_.result["out"], "hi": claim[31] & 0x80 != 0})
+    w = pc.World(prefix="kv_c05b_")
+    try:
+        ent = {"lo": (b"alice", T(M)), "hi": (b"alice-hi", T(hi(M))), "carol": (b"carol", T(C))}
+        rings = {"canonical-only": [ent["lo"], ent["carol"]], "bit255-only": [ent["carol"], ent["hi"]], "canonical-then-bit255": [ent["lo"], ent["hi"]],
+                 "bit255-then-canonical": [ent["hi"], ent["carol"], ent["lo"]], "neither": [ent["carol"]]}
+        for k, es in rings.items():
+            txt = [blk(nm, pk_) for nm, pk_ in es]
+            txt.insert(rng.randrange(0, len(txt) + 1), bob)
+            w.write("kr_" + k, b"\n".join(txt))
+        jobs = []
+        for fi, f in enumerate(files):
+            w.write("ct_%d" % fi, f["data"])
+            for k in rings:
+                if f["who"] == "nobody" and k not in ("canonical-only", "neither") and not full:
+                    continue
+                jobs.append((fi, k, rng.choice(["o", "pipe", "file"]), rng.choice(["pipe", "file", "pty"])))
+
+        def one(job):
+            fi, k, o, e = job
+            i = jobs.index(job)
+            argv = ["decrypt", "ct_%d" % fi, "-t", "bob", "-k", "kr_" + k, "--env-pass"] + (["-o", "dst_%d" % i] if o == "o" else [])
+            kw = dict(env=pc.env_pw(pw), out=("file", w.p("so_%d" % i)) if o == "file" else "pipe")
+            r = pc.s4a_proc(w, argv, err={"pipe": "pipe", "pty": "pty", "file": ("file", w.p("se_%d" % i))}[e], **kw)
+            if r is None:
+                r = pc.s4a_proc(w, argv, err="pipe", **kw)
+            return r, (w.read("dst_%d" % i) if o == "o" else r.out)
+        with ThreadPoolExecutor(max_workers=vlib.NPROC) as ex:
+            res = list(ex.map(one, jobs))
+        for (fi, k, o, e), (r, got) in zip(jobs, res):
+            f = files[fi]
+            A = f["auth"]
+            ctx.evaluations += 1
+            ctx.distinct_nontrivial += 1
+            ctx.oracle_checks += 1
+            count("c05cli:key-bytes-%s/%s" % ("bit255-set" if f["hi"] else "canonical", k))
+            hit = [nm for nm, pk_ in rings[k] if pk_ == T(A)]
+            want = [b"Success. File from: " + hit[0]] if hit else [b"Caution. File is from an unknown key.", b"Unknown key: " + T(A)]
+            lines = pc.s4a_report_lines(r.err)
+            scen = ("file made by the library encryptor with the private key of %s and the embedded sender key %s (%s); the library authenticates it and "
+                    "returns the sender key %s; bob's keyring '%s' lists %s; plaintext to %s, stderr to %s"
+                    % (f["who"], f["claim"].hex(), "bit 255 set: another byte string for the same curve point" if f["hi"] else "canonical", A.hex(), k,
+                       ", ".join("%s = %s" % (nm.decode(), pk_.decode()) for nm, pk_ in rings[k]), o, e))
+            cmds = [dict(r.describe(), keyring=(w.read("kr_" + k) or b"").decode(), ciphertext_hex=f["data"].hex())]
+            bad = None
+            if r.rc != 0 or got != P:
+                bad = ("decryption by the addressed key succeeds with exactly the plaintext (exit 0)", "exit %d, %s" % (r.rc, "output differs/absent" if got != P else "output ok"))
+            elif lines != want:
+                shown = None
+                for l in lines:
+                    if l.startswith(b"Unknown key: "):
+                        try:
+                            shown = base64.b64decode(l[13:])[:32].hex()
+                        except Exception:
+                            shown = "not base64"
+                bad = ("the tool names the entry whose public key EQUALS the authenticated sender key %s, or reports that key as unknown with an "
+                       "encoding that decodes to exactly these bytes: %s" % (A.hex(), b" / ".join(want).decode()),
+                       (b" / ".join(lines).decode("utf-8", "replace") if lines else r.errtext()[-300:]) + (" (the printed encoding decodes to %s)" % shown if shown else ""))
+            if bad:
+                ctx.violations.append({"input": {"kind": "proc", "scenario": scen, "commands": cmds}, "expected": bad[0], "observed": bad[1], "finding_key": None})
+            elif len(ctx.samples) < 10:
+                ctx.samples.append({"scenario": scen[:400], "stderr": b" / ".join(lines).decode("utf-8", "replace")})
+    finally:
+        w.close()
+
+
 REGISTRY["C05"] = C05()
 
 import props_cli  # noqa: E402,F401  (registers C12..C17)
 import props_misc  # noqa: E402
 props_misc.register(REGISTRY)
+import props_lib_cli  # noqa: E402  (command-line halves of C02 and C10)
